@@ -88,14 +88,16 @@ def policy_stream(chk, n, do_model=True):
 
 def gen_serial_case(rng, nmax, tmax):
     n = rng.randint(1, nmax)
-    ids = rng.sample(range(1, 60), n) if rng.random() < 0.6 else list(range(1, n + 1))
+    ids = rng.sample(range(0, 60), n) if rng.random() < 0.6 else list(range(1, n + 1))
     T = rng.randint(6, tmax)
     nodes = {}
     for j, i in enumerate(ids):
         S = rng.randint(0, 15)
         nodes[i] = dict(slt=rng.randint(0, 3), olt=0, pol=['BS', S], cap=None, init_il=S, h=Fraction(rng.randint(0, 8), 4), p=Fraction(rng.randint(0, 40), 4) if j == n - 1 else Fraction(0),
                         ith=None, rev=Fraction(0), demand=([rng.choice([0, 1, 2, 3, 5, 8, 13]) for _ in range(T)] if j == n - 1 else None), dis=None, init_orders=0, init_ships=0)
-    return dict(mode='serial-ebs', kind='serial', ids=ids, edges=[[ids[j], ids[j + 1]] for j in range(n - 1)], T=T, nodes=nodes, malformed=None)
+    edges = [[ids[j], ids[j + 1]] for j in range(n - 1)]
+    if rng.random() < 0.6: rng.shuffle(edges)        # network.nodes is then not listed upstream-to-downstream
+    return dict(mode='serial-ebs', kind='serial', ids=ids, edges=edges, T=T, nodes=nodes, malformed=None)
 
 
 def check_serial(chk, c, want_models=False):
@@ -153,7 +155,7 @@ def extra(chk, mult):
 
 
 def run(chk):
-    simmon.run_property(chk, PID, n_thorough=2000, extra=extra)
+    simmon.run_property(chk, PID, n_thorough=1600, extra=extra)
 
 
 def extra_replay(chk, c):
